@@ -20,14 +20,14 @@ type GenParams struct {
 	Tomb      int  // percentage of value-less messages
 	// op weights
 	WPublish, WDelete, WDeleteMulti, WReopen, WGC, WSync, WTrim, WCompact int
-	TrimKinds    []string
-	CompactKinds []string
-	SingleVer    int // 0 = vary, else fixed version for the whole history (size trims)
-	IxProbe      bool
-	Epoch0       bool // times relative to the Unix epoch (tiny absolute values)
-	WBackup      int
-	ROPct        int // percentage of reopens that are read-only
-	IxProbeExtra int
+	TrimKinds                                                             []string
+	CompactKinds                                                          []string
+	SingleVer                                                             int // 0 = vary, else fixed version for the whole history (size trims)
+	IxProbe                                                               bool
+	Epoch0                                                                bool // times relative to the Unix epoch (tiny absolute values)
+	WBackup                                                               int
+	ROPct                                                                 int // percentage of reopens that are read-only
+	IxProbeExtra                                                          int
 }
 
 func pick[T any](rng *rand.Rand, xs []T) T { return xs[rng.Intn(len(xs))] }
@@ -352,6 +352,15 @@ func genSweepHistory(id int, seed int64) *History {
 				m.V, m.VL = vid, vl
 			}
 			op.Batch = append(op.Batch, m)
+		}
+		if rng.Intn(10) == 0 {
+			// several bodies beyond 64 KiB in ONE batch (one segment, one Consume batch), sizes equal or decreasing:
+			// whatever a reader shares between large records (buffers, mappings) shows as an earlier message
+			// carrying a later one's bytes
+			for _, vl := range pick(rng, [][]int{{70000, 65600}, {66000, 66000}, {1 << 17, 65505, 65505}}) {
+				vid++
+				op.Batch = append(op.Batch, MsgSpec{K: fmt.Sprintf("k%d", 1+rng.Intn(300)), T: int64(rng.Intn(len(extremeTimes))), V: vid, VL: vl})
+			}
 		}
 		h.Ops = append(h.Ops, op)
 		if i%13 == 12 {
